@@ -67,6 +67,8 @@ def _method():
     })
 
 
+# (keys that are also names of public Config members are legal field keys like any other)
+MEMBER_NAMED = {"db": "save", "tags": "validate", "opts": "load", "data": "to_tree", "token": "dumps", "path": "full_path"}
 NON_ASCII = {"alpha": "gr\u00f6\u00dfe", "port": "fl\u00e4che", "name": "\u540d\u524d", "x": "\u00f1", "level": "niveau_\u00e9", "host": "h\u00f4te", "mode": "\u03bc"}
 
 
@@ -77,7 +79,7 @@ def _non_ascii_keys(node):
     for c in node["children"]:
         if "children" in c:
             c = _non_ascii_keys(c)
-        new = NON_ASCII.get(c["key"])
+        new = NON_ASCII.get(c["key"]) or (MEMBER_NAMED.get(c["key"]) if c["kind"] not in ("schema", "configtype", "schemalist") else None)
         if new and new not in taken:
             for v in node["children"]:
                 if v["kind"] == "virtual" and v.get("of") == c["key"]:
